@@ -531,7 +531,8 @@ theorem dropAndSend_admin (g0 : G8) (s : Sess) (m : OutMsg) (h : isAdminKind m.k
   show (c8o _ (.wire m')).fresh = false
   rw [c8o_wire]
 
-theorem ready_logonReply (g0 : G8) (s : Sess) (m : InMsg) (flag : Bool) (hW : WK g0 s) : Ready g0 (logonReply s m flag) := by
+theorem ready_logonReply (g0 : G8) (s : Sess) (m : InMsg) (flag : Bool) (hW : WK g0 s) (hnl : s.st.loggedOn = false) :
+    Ready g0 (logonReply s m flag) := by
   unfold logonReply
   split
   · rename_i hini
@@ -544,6 +545,8 @@ theorem ready_logonReply (g0 : G8) (s : Sess) (m : InMsg) (flag : Bool) (hW : WK
     have hfr : Fr s x := by
       rw [← hx]; repeat' split
       all_goals exact ⟨rfl, rfl, rfl, rfl, rfl⟩
+    have hxl : (flag && x.sentReset && x.st.loggedOn) = false := by rw [hfr.st, hnl]; simp
+    simp only [hxl, Bool.false_eq_true, if_false]
     intro ho
     have hfr2 : Fr x (sendLogonRe x flag m) := fr_dropAndSend x _
     have hox : x.out = true := by rw [← hfr2.out]; exact ho
@@ -563,7 +566,7 @@ theorem ready_logonReply (g0 : G8) (s : Sess) (m : InMsg) (flag : Bool) (hW : WK
     every state -/
 theorem handleLogon_shape (g0 : G8) (s : Sess) (m : InMsg) (hk : isAdminKind (kindOf m) = true) :
     (∃ e, (handleLogon s m).2 = some e ∧ e.isTooHigh = false ∧ P true g0 s (handleLogon s m).1) ∨
-    (∃ x, P true g0 s x ∧ (WK g0 s → Ready g0 x) ∧ handleLogon s m = logonFinish x m ∧ ∃ n, getInt m 34 = .val n) := by
+    (∃ x, P true g0 s x ∧ (WK g0 s → s.st.loggedOn = false → Ready g0 x) ∧ handleLogon s m = logonFinish x m ∧ ∃ n, getInt m 34 = .val n) := by
   unfold handleLogon
   split
   · exact Or.inl ⟨_, rfl, rfl, P.refl _ _ _⟩
@@ -593,7 +596,7 @@ theorem handleLogon_shape (g0 : G8) (s : Sess) (m : InMsg) (hk : isAdminKind (ki
       cases o2 with
       | some r => exact Or.inl ⟨_, rfl, hnt2 r rfl, h4⟩
       | none =>
-        exact Or.inr ⟨_, h4.trans (p_logonReply true g0 s4 m _), fun hW => ready_logonReply g0 s4 m _ (h4.w hW), rfl, hseq rfl⟩
+        exact Or.inr ⟨_, h4.trans (p_logonReply true g0 s4 m _), fun hW hnl => ready_logonReply g0 s4 m _ (h4.w hW) (by rw [h4.fr.st]; exact hnl), rfl, hseq rfl⟩
 
 /-- `logonFinish` with a readable MsgSeqNum: the notification, then either a too-high verdict or the number consumed -/
 theorem logonFinish_spec (x : Sess) (m : InMsg) (n : Int) (hn : getInt m 34 = .val n) :
